@@ -473,8 +473,8 @@ def runtime_format_templates(repo, fn):
             if vs:
                 return any(runtime_text(v, depth + 1) for v in vs)
             return False      # parameter / global: unknown, not reported
-        if isinstance(e, ast.Call) and isinstance(e.func, ast.Attribute) and e.func.attr in ("join", "format") and depth < 3:
-            return isinstance(e.func.value, ast.Constant) is False or e.func.attr == "format"
+        if isinstance(e, ast.Call):
+            return True       # str(ex), "".join(parts), x.format(..): text computed at run time
         return isinstance(e, (ast.Attribute, ast.Subscript))
     for x in walk_no_nested(fn):
         if isinstance(x, ast.Call) and isinstance(x.func, ast.Attribute) and x.func.attr == "format":
